@@ -1,5 +1,6 @@
 (** C01 — XML/SOAP wire fidelity.  Property theorems only; each closed by [exact] of a lemma
-    proved in C01/*.v over the models Wire/Xml.v and Wire/Soap.v. *)
+    proved in C01/XmlProofs.v, C01/LeafProofs.v over the SHARED model Wire/Xml.v (three leaf kinds).  The richer
+    object-level theorems are in Props/C01_x.v, the call-level ones in Props/C01_call.v. *)
 From SpyneV Require Import Base.Prelude Wire.Universe Wire.Xml C01.Leaf C01.XmlProofs C01.LeafProofs.
 
 (** XmlDocument.from_element after XmlDocument.to_parent and an lxml serialise/parse cycle
